@@ -742,6 +742,9 @@ def wave9_rules(ctx):
     # wave 10: an include anywhere below the root switches the whole binding map off (shared with C07.dynamic/include-anywhere)
     from rules.c07 import wave8_rules as c07_w8
     obs += relabel(c07_w8(ctx), "C07.dynamic/include-anywhere", "C06.fastpath/dynamic/include-anywhere")
+    # wave 11: an updater of the binding map prepares its expression inside the updater (shared with C07.emit/fresh)
+    from rules.c07 import emit_rule as c07_emit
+    obs += relabel(c07_emit(ctx), "C07.emit/fresh", "C06.fastpath/fresh")
     return obs
 
 
